@@ -184,6 +184,25 @@ func c17(r *mon.Run) {
 		Do: func(i int, t *mon.Tally) {
 			c17Check(r, t, "error-sites", i, siteAt(i))
 		}})
+	// expressions of 1...3 MiB whose (first) error lies beyond byte 1 000 000, and ones of that size with an early error
+	// or none: the location contract has no size limit
+	hugeMk := []func() string{
+		func() string { return "a" + strings.Repeat(" ", 1100000) + "#" },
+		func() string { return strings.Repeat("a.", 600000) + "." },
+		func() string { return "'" + strings.Repeat("x", 1048600) + "' ~" },
+		func() string { return "`\"" + strings.Repeat("y", 2100000) + "\"` )" },
+		func() string { return "#" + strings.Repeat(" ", 1100000) + "a" },
+		func() string { return "a" + strings.Repeat(" ", 3200000) + "| b" },
+		func() string { return "a |\n" + strings.Repeat(" ", 1000010) + "\n b |" },
+		func() string { return strings.Repeat("é", 520000) },
+		func() string { return "foo[" + strings.Repeat("1", 1000100) + "]" },
+		func() string { return strings.Repeat("(a)|", 262144) + "#" }, // (flat: a million nested openers need more than Go's 1 GB stack limit - a resource limit, see DESIGN 8.2 #18)
+	}
+	ws = append(ws, mon.Workload{Name: "megabyte-expressions", N: len(hugeMk), Batch: 1,
+		Describe: func(i int) string { return "megabyte-expressions case " + strconv.Itoa(i) },
+		Do: func(i int, t *mon.Tally) {
+			c17Check(r, t, "megabyte-expressions", i, hugeMk[i]())
+		}})
 	nt := tierPick(r, 20000, 400000)
 	ws = append(ws, mon.Workload{Name: "hostile-trees", N: nt,
 		Do: func(i int, t *mon.Tally) {
